@@ -299,19 +299,9 @@ def model_seconds(c):
     return 1.4e-8 * n * n + 1e-7 * longest * longest
 
 
-# operation keyword of the case language -> name of the function it enters, where the two differ
-OP_FN = {"eq_slice": "eq", "eq_buf": "eq", "eq_self": "eq", "eq_array": "eq", "ne": "eq", "debug": "fmt", "iter_debug": "fmt",
-         "iter_mut_debug": "fmt", "drain_debug": "fmt", "into_iter_debug": "fmt", "cmp": "cmp", "partial_cmp": "partial_cmp",
-         "clone_keep": "clone", "from_array": "from", "extend_ref": "extend", "index": "index", "get_mut": "get_mut",
-         "iter_default": "default", "iter_mut_default": "default", "ref_into_iter": "into_iter", "boxed": "boxed"}
-
-
 def enters_changed(c, affected):
-    for o in c.ops:
-        t = o.split(" ", 1)[0]
-        if OP_FN.get(t, t) in affected:
-            return True
-    return False
+    import cases as C
+    return any(C.enters(o, affected) for o in c.ops)
 
 
 def within_budget(cases, budget, seed, affected=()):
@@ -515,6 +505,8 @@ def main():
                     affected = srcfp.affected_names(fp.get("changed", [])) if not fp_ok else ()
                 except Exception:
                     affected = ()
+                import cases as C
+                C.AFFECTED = set(affected)      # the sampled families keep every operation that enters a changed function
                 # a changed function that only exists in a feature-gated build is searched in that build as well
                 xcfg = []
                 if any("@unstable" in n for n in fp.get("changed", [])) and plan.spec is not None and pid != "C16":
